@@ -1206,8 +1206,6 @@ def _inline_unknown_helpers(d, record, max_blocks=120, max_depth=4):
         if any(st["s"] == "assign" and st["rv"]["rv"] == "agg" and st["rv"].get("agg") in ("coroutine", "coroutine_closure") for b in f["blocks"] for st in b["st"]):
             continue  # async fn wrapper: its body is a coroutine, not inlinable here
         cand[f["id"]] = f
-    if not cand:
-        return
 
     def callee_of(t):
         if t["t"] != "call":
@@ -1228,8 +1226,6 @@ def _inline_unknown_helpers(d, record, max_blocks=120, max_depth=4):
     for cid in list(cand):
         if reaches(cid, cid, set()):
             del cand[cid]
-    if not cand:
-        return
 
     def inline_into(f, depth):
         changed = False
@@ -1281,6 +1277,68 @@ def _inline_unknown_helpers(d, record, max_blocks=120, max_depth=4):
         for _ in range(max_depth):
             if not inline_into(f, 1):
                 break
+    # `helper(args).await` with an unknown `async fn helper`: the wrapper function only builds the coroutine, and the
+    # caller polls it in the await loop.  Inline the wrapper like any helper (done above, it is a plain function) and
+    # then splice the coroutine body in place of the `Future::poll` call that is resolved to it: awaiting an async
+    # block is the same as running its statements here.  The body's own yields stay yields of the caller.
+    async_wrappers = {}
+    for f in d["functions"]:
+        if f["kind"] in ("Fn", "AssocFn") and (crate, f["id"]) not in known and len(by_id.get(f["id"], [])) == 1:
+            aggs = [st["rv"]["def"] for b in f["blocks"] for st in b["st"] if st["s"] == "assign" and st["rv"]["rv"] == "agg" and st["rv"].get("agg") == "coroutine"]
+            ncalls = sum(1 for b in f["blocks"] if b["term"]["t"] == "call" and not b.get("cleanup"))
+            if len(aggs) == 1 and ncalls == 0 and aggs[0] in by_id and len(by_id[aggs[0]]) == 1:
+                async_wrappers[f["id"]] = by_id[aggs[0]][0]
+    if async_wrappers:
+        # 1. the wrappers are plain functions: inline them (their MIR just moves the arguments into the coroutine value)
+        for wid in async_wrappers:
+            for f in d["functions"]:
+                if f["id"] == wid:
+                    cand[wid] = f
+        for f in d["functions"]:
+            if f["id"] not in async_wrappers:
+                for _ in range(2):
+                    if not inline_into(f, 1):
+                        break
+        bodies = {c["id"]: (wid, c) for wid, c in async_wrappers.items()}
+        for f in list(d["functions"]):
+            if f["id"] in bodies or not f.get("coroutine"):
+                continue
+            i = 0
+            while i < len(f["blocks"]) and len(f["blocks"]) < 3000:
+                blk = f["blocks"][i]
+                t = blk["term"]
+                i += 1
+                if t["t"] != "call" or blk.get("cleanup") or t.get("resolved") not in bodies or not (t.get("callee") or "").endswith("Future::poll"):
+                    continue
+                wid, c = bodies[t["resolved"]]
+                # the coroutine value: the local of the caller that was assigned the wrapper's aggregate
+                src = None
+                for b2 in f["blocks"]:
+                    for st in b2["st"]:
+                        if st["s"] == "assign" and st["rv"]["rv"] == "agg" and st["rv"].get("def") == c["id"] and not st["pl"]["p"]:
+                            src = st["pl"]["l"]
+                if src is None:
+                    continue
+                loff, boff = len(f["locals"]), len(f["blocks"])
+                blk["st"].append({"s": "assign", "pl": {"l": loff + 1, "p": []}, "rv": {"rv": "use", "op": {"k": "copy", "pl": {"l": src, "p": []}}}, "line": t.get("line", 0), "inl": c["id"]})
+                blk["st"].append({"s": "assign", "pl": {"l": loff + 2, "p": []}, "rv": {"rv": "use", "op": {"k": "copy", "pl": {"l": 2, "p": []}}}, "line": t.get("line", 0), "inl": c["id"]})
+                ret_to, dest = t.get("to"), t["dest"]
+                blk["term"] = {"t": "goto", "to": boff, "line": t.get("line", 0), "exp": True, "inl_call": c["id"]}
+                f["locals"] = f["locals"] + list(c["locals"])
+                for nm in c["names"]:
+                    f["names"].append({"name": nm["name"], "pl": _remap(nm["pl"], loff, boff)})
+                for cb in c["blocks"]:
+                    nb = _remap(cb, loff, boff)
+                    if nb["term"]["t"] == "return":
+                        nb["st"].append({"s": "assign", "pl": dest, "rv": {"rv": "agg", "agg": "adt", "adt": "std::task::Poll", "variant": "Ready", "fields": ["0"],
+                                                                              "ops": [{"k": "move", "pl": {"l": loff, "p": []}}]}, "line": nb["term"].get("line", 0), "inl": c["id"]})
+                        nb["term"] = ({"t": "goto", "to": ret_to, "line": 0, "exp": True} if ret_to is not None else {"t": "unreachable", "line": 0, "exp": True})
+                    elif nb["term"]["t"] == "codrop":
+                        nb["term"] = {"t": "unreachable", "line": 0, "exp": True}
+                    f["blocks"].append(nb)
+                f.setdefault("inlined", []).extend([wid, c["id"]])
+                record.setdefault(f["id"], []).append(c["id"])
+                record.setdefault("__async__", []).append(c["id"])
     # an unknown helper passed as a function value (`.map(helper)`) is equivalent to the closure `|x| helper(x)`:
     # synthesise that closure body (the helper's MIR with its parameters shifted past an empty environment)
     # so that rules written for closures see the same shape
@@ -1335,10 +1393,16 @@ def _inline_unknown_helpers(d, record, max_blocks=120, max_depth=4):
             for v in o:
                 scan(v, owner)
     for f in d["functions"]:
-        if f["id"] in inlined_ids:
+        if f["id"] in inlined_ids or not inlined_ids:
             continue
         scan(f["blocks"], f["id"])
     gone = inlined_ids - still_used
+    # an inlined coroutine body is still named by its aggregate in the caller; it is gone as a separate function
+    # unless something else polls or spawns it
+    for cid in set(record.get("__async__", [])):
+        polled_elsewhere = any(b["term"].get("resolved") == cid for f in d["functions"] if f["id"] != cid for b in f["blocks"] if b["term"]["t"] == "call")
+        if not polled_elsewhere:
+            gone.add(cid)
     if gone:
         d["functions"] = [f for f in d["functions"] if f["id"] not in gone]
         record["__removed__"] = sorted(gone)
